@@ -26,7 +26,8 @@ def _lines(text):
 def mutate(rng, text, prog):
     kinds = ["missing-end", "missing-colon", "unbalanced-paren", "dangling-operator", "adjacent-atoms", "bad-comparison",
              "keyword-typo", "elif-after-else", "missing-newline", "unclosed-brace", "empty-rhs", "comparison-statement",
-             "if-without-end", "prob-negative", "prob-sum-gt-1", "prob-gt-1", "prob-negative", "prob-sum-gt-1"]
+             "if-without-end", "prob-negative", "prob-sum-gt-1", "prob-gt-1", "prob-negative", "prob-sum-gt-1",
+             "choice-missing-value", "choice-missing-value"]
     rng.shuffle(kinds)
     for kind in kinds:
         r = _apply(rng, kind, text)
@@ -155,6 +156,20 @@ def _apply(rng, kind, text):
         i = rng.choice(idx)
         del lines[i]
         return "\n".join(lines) + "\n", f"'end' of an if-statement removed (line {i + 1})"
+    if kind == "choice-missing-value":
+        # a probabilistic choice in which a value is missing next to a probability block (one token deleted from a valid choice)
+        wl = [i for i, l in enumerate(lines) if re.match(r"^\s*while ", l)]
+        if not wl:
+            return None
+        al = [(i, m) for i, m in _assign_lines(lines, _is_poly) if i > wl[0]]
+        if not al:
+            return None
+        i, m = rng.choice(al)
+        v = m.group(2)
+        bad = rng.choice([f"{v} + 2 {{1/2}} {{1/2}}", f"{v} {{1/3}} {{1/3}} 0 {{1/3}}", f"{{1/2}} {v} + 1", f"{v} + 1 {{1/2}}",
+                          f"{v} + 1 {{1/4}} {v} {{1/4}} {{1/2}}", f"{v} {{1/2}} {{1/4}} 1", f"{v} + 1 {{1/2}} {v} {{1/4}} {{1/4}}"])
+        lines[i] = f"{m.group(1)}{v} = {bad}"
+        return "\n".join(lines) + "\n", f"choice with a missing value on line {i + 1}: {lines[i].strip()}"
     if kind.startswith("prob-"):
         # replace (or insert) a probabilistic choice with an invalid constant probability vector
         wl = [i for i, l in enumerate(lines) if re.match(r"^\s*while ", l)]
